@@ -488,6 +488,10 @@ void DocumentBuilder::instance_name(const char* name, bool templ)
             }
         }
     }
+    if (currentInstanceLine == nullptr || currentTemplate == nullptr) {
+        handle_error(TypeException("Must be declared inside of an instance line"));
+        return;
+    }
     currentInstanceLine->uid =
         currentTemplate->frame.add_symbol(name, type_t::create_primitive(INSTANCE_LINE), position, currentInstanceLine);
 }
@@ -545,6 +549,8 @@ void DocumentBuilder::instance_name_end(const char* name, size_t arguments)
             }
             i_name += ')';
             instance_name(i_name.c_str());  // std::cout << "instance line name: " << i_name << std::endl;
+            if (currentInstanceLine == nullptr)  // reported by instance_name
+                return;
             /* Create template composition.
              */
             currentInstanceLine->add_parameters(*old_instance, params, exprs);
